@@ -103,6 +103,26 @@ def well_conditioned(r1, r2):
     return ok
 
 
+def insensitive_points(rec, pts, probe_seed, rtol, atol):
+    """of the evaluation points `pts`, those at which the recorded NLP functions do not move by more than the tolerance
+    when the point and the parameters are perturbed in the 13th digit.  Values that look moderate can sit on top of a
+    blown-up intermediate (sin of a state that has grown to 1e10 in an unstable single-shooting recursion): there two
+    expression graphs of the same function legitimately differ in the 7th digit, which only such a perturbation shows."""
+    F = rec.get("_F")
+    if F is None:
+        return pts
+    xs = [np.asarray(rec["x0"], dtype=float)] + probe_points(rec["nx"], probe_seed)
+    keep = []
+    for i in pts:
+        try:
+            f, g, _, _ = F(xs[i] * (1 + 2e-13), np.asarray(rec["p"], dtype=float) * (1 + 2e-13))
+        except RuntimeError:
+            continue
+        if _close([float(f)], [rec["f"][i]], rtol=rtol / 10, atol=atol / 10) and _close(_arr(g), rec["g"][i], rtol=rtol / 10, atol=atol / 10):
+            keep.append(i)
+    return keep
+
+
 def compare(r1, r2, fields=("size", "f", "g", "bounds", "x0", "p", "solver")):
     """-> None if equal, else (class, detail) for the first differing field."""
     if "size" in fields:
